@@ -19,6 +19,7 @@ class P2SChecker(SolutionChecker):
         return (
             len(script_public_key) == 23
             and script_public_key[0] == OP_HASH160
+            and script_public_key[1] == 20  # the 20-byte push of the script hash
             and script_public_key[-1] == OP_EQUAL
         )
 
